@@ -64,7 +64,7 @@ CHECKS = {
   "Law-based oracle (routes agree, round trip); no reference model involved.",
   "exhaustive enumeration of values and documents; all-routes-agree oracle"),
  "C17": ("model_checking", "tree", "5/C17",
-  "For every serializable value of the family: serialization is deterministic, reaches a fixed point in one step through the type and through toml::Table, Display equals to_string, and plain / pretty / toml_edit-pretty outputs decode equal. For every toml::Value table with 3-4 keys: every assignment of 7 entry kinds (scalar, array, array of tables, table, mixed array, empty table, empty array) x every insertion order x 2 nesting depths through three printers: valid TOML (specification model), equal decode, fixed point.",
+  "For every serializable value of the family: serialization is deterministic, reaches a fixed point in one step through the type and through toml::Table, Display of a parsed toml::Table is deterministic, valid, decodes equal and is a fixed point, and plain / pretty / toml_edit-pretty outputs decode equal. For every toml::Value table with 3-4 keys: every assignment of 7 entry kinds (scalar, array, array of tables, table, mixed array, empty table, empty array) x every insertion order x 2 nesting depths through three printers: valid TOML (specification model), equal decode, fixed point.",
   "The check binary is the default (sorted map) configuration; the check also builds the cfg engine's binary with preserve_order and runs the same value-tree enumeration plus the parse -> print -> parse battery there (equality by canonical form and by ==).",
   "exhaustive enumeration of value trees x insertion orders; fixed-point and validity oracles"),
  "C06": ("model_checking", "tree", "5/C06",
